@@ -3,6 +3,7 @@ package partworld
 import (
 	"encoding/json"
 	"fmt"
+	"reflect"
 	"sort"
 	"strings"
 
@@ -451,6 +452,9 @@ func (w *msWorld) step() bool {
 			r.Violate("C17", "map-json", "m%d JSON round trip %s decodes to an unequal map", v.id, bs)
 			return false
 		}
+		if !w.richRoundTrip(r, v, true) {
+			return false
+		}
 		return w.checkMap(nv, 3)
 	case 10: // YAML round trip of a map
 		v := w.maps[c.Choose(len(w.maps))]
@@ -471,6 +475,9 @@ func (w *msWorld) step() bool {
 		w.probes["map-yaml-roundtrip"]++
 		if !out.SlowEqual(v.m) {
 			r.Violate("C17", "map-yaml", "m%d YAML round trip %q decodes to an unequal map", v.id, bs)
+			return false
+		}
+		if !w.richRoundTrip(r, v, false) {
 			return false
 		}
 		return w.checkMap(nv, 3)
@@ -526,4 +533,89 @@ func msKeys(c *simcore.Choices) []string {
 	}
 	sort.Strings(out)
 	return out
+}
+
+// richVal is a value type with the shapes a codec can get wrong when it reuses decode targets: slices,
+// maps, pointers and optional fields.
+type richVal struct {
+	N int            `json:"n" yaml:"n"`
+	L []int          `json:"l,omitempty" yaml:"l,omitempty"`
+	M map[string]int `json:"m,omitempty" yaml:"m,omitempty"`
+	P *int           `json:"p,omitempty" yaml:"p,omitempty"`
+	O string         `json:"o,omitempty" yaml:"o,omitempty"`
+}
+
+func richOf(k string, n int) richVal {
+	v := richVal{N: n}
+	if n%2 == 0 {
+		v.L = []int{n, n + 1, len(k)}
+	}
+	if n%3 == 0 {
+		v.M = map[string]int{k: n, "x": 1}
+	}
+	if n%5 < 2 {
+		p := n * 7
+		v.P = &p
+	}
+	if n%4 == 1 {
+		v.O = "o" + k
+	}
+	return v
+}
+
+// richRoundTrip encodes the map's contents with structured values and decodes them again: "any value" in
+// the property covers value types holding references and optional fields.
+func (w *msWorld) richRoundTrip(r *simcore.Recorder, v *mapVal, useJSON bool) bool {
+	var m part.Map[string, richVal]
+	keys := make([]string, 0, len(v.model))
+	for k := range v.model {
+		keys = append(keys, k)
+	}
+	sort.Strings(keys)
+	for _, k := range keys {
+		m = m.Set(k, richOf(k, v.model[k]))
+	}
+	var out part.Map[string, richVal]
+	var bs []byte
+	var err error
+	kind := "map-yaml-rich"
+	if useJSON {
+		kind = "map-json-rich"
+		if bs, err = json.Marshal(m); err == nil {
+			err = json.Unmarshal(bs, &out)
+		}
+	} else {
+		if bs, err = yaml.Marshal(m); err == nil {
+			err = yaml.Unmarshal(bs, &out)
+		}
+	}
+	if err != nil {
+		r.Violate("C17", kind, "m%d with structured values: %v", v.id, err)
+		return false
+	}
+	w.probes[kind+"-roundtrip"]++
+	if out.Len() != len(keys) {
+		r.Violate("C17", kind, "m%d with structured values: %q decodes to %d entries, want %d", v.id, bs, out.Len(), len(keys))
+		return false
+	}
+	i := 0
+	for k, got := range out.All() {
+		if i >= len(keys) || k != keys[i] {
+			r.Violate("C17", kind, "m%d with structured values: %q decodes to key %q at position %d", v.id, bs, k, i)
+			return false
+		}
+		if want := richOf(k, v.model[k]); !reflect.DeepEqual(got, want) {
+			r.Violate("C17", kind, "m%d with structured values: %q decodes key %q to %+v, want %+v", v.id, bs, k, got, want)
+			return false
+		}
+		i++
+	}
+	for _, k := range keys {
+		got, ok := out.Get(k)
+		if want := richOf(k, v.model[k]); !ok || !reflect.DeepEqual(got, want) {
+			r.Violate("C17", kind, "m%d with structured values: after decoding %q Get(%q)=%+v,%v want %+v", v.id, bs, k, got, ok, want)
+			return false
+		}
+	}
+	return true
 }
